@@ -94,11 +94,19 @@ template<typename SK> void theta_common_readout(J& j, const SK& s) {
    .put("theta64", s.get_theta64()).put("seed_hash", s.get_seed_hash()).put("num_retained", s.get_num_retained())
    .put("q_estimate", s.get_estimate()).put("q_lower_bound_2", s.get_lower_bound(2)).put("q_upper_bound_2", s.get_upper_bound(2));
 }
-inline std::string readout_theta(const compact_theta_sketch& s) {
+template<typename SK> std::string readout_theta_body(const SK& s) {
   J j; j.put("family", std::string("theta"));
   theta_common_readout(j, s);
   j.arr("entries", theta_entries(s));
-  return j.done();
+  return j.s;
+}
+inline std::string readout_theta(const compact_theta_sketch& s) { return readout_theta_body(s) + "\n}\n"; }
+// with the image at hand: additionally the zero-copy reader (wrapped_compact_theta_sketch) must present the same content
+inline std::string readout_theta(const compact_theta_sketch& s, const std::string& img, uint64_t seed) {
+  const std::string a = readout_theta_body(s);
+  std::string w;
+  try { w = readout_theta_body(wrapped_compact_theta_sketch::wrap(img.data(), img.size(), seed)); } catch (const std::exception& e) { w = std::string("wrap threw: ") + e.what(); }
+  return a + ",\n \"wrapped_view\":" + jstr(a == w ? std::string("same content as deserialized") : "DIFFERS: " + w.substr(0, 300)) + "\n}\n";
 }
 inline std::string write_theta(const ThetaState& st, bool stream) {
   if (stream) { std::ostringstream os; if (st.compressed) st.sk.serialize_compressed(os); else st.sk.serialize(os); return os.str(); }
@@ -137,8 +145,8 @@ inline void decode_check_theta(const compact_theta_sketch& s, uint64_t seed, con
 
 inline void register_theta() {
   Family f; f.name = "theta"; f.group = 1; f.nvariants = 32;
-  f.build = [](int v, Rng& r, bool small) { ThetaState st = gen_theta(v, r, small); return Built{write_theta(st, false), readout_theta(st.sk)}; };
-  f.read = [](const std::string& img, bool stream, int v) { return readout_theta(read_theta(img, stream, seed_for(v))); };
+  f.build = [](int v, Rng& r, bool small) { ThetaState st = gen_theta(v, r, small); const std::string img = write_theta(st, false); return Built{img, readout_theta(st.sk, img, st.seed)}; };
+  f.read = [](const std::string& img, bool stream, int v) { return readout_theta(read_theta(img, stream, seed_for(v)), img, seed_for(v)); };
   f.decode_case = [](int v, Rng& r, bool small) {
     ThetaState st = gen_theta(v, r, small);
     const std::string ctx = "variant=" + std::to_string(v) + " retained=" + std::to_string(st.sk.get_num_retained());
@@ -335,7 +343,7 @@ inline HllState gen_hll(int variant, Rng& r, bool small) {
     case 1: hll_feed(st.sk, st.inputs, r, 1 + r.below(7), dom); break;
     case 2: hll_feed(st.sk, st.inputs, r, 8 + r.below(std::max<uint64_t>(1, (3 * k) / 32 - 9)), dom); break;          // SET (lg_k >= 8)
     case 3: hll_feed(st.sk, st.inputs, r, k / 8 + r.below(k), dom); break;                                              // HLL, many zero registers
-    case 4: hll_feed(st.sk, st.inputs, r, small ? 6 * k + r.below(30 * k) : 20 * k + r.below(200 * k), dom, small ? -1 : V_U64); break;  // curMin > 0, exceptions
+    case 4: hll_feed(st.sk, st.inputs, r, small ? 6 * k + r.below(30 * k) : std::min<uint64_t>(20 * k + r.below(200 * k), 250000 + r.below(150000)), dom, small ? -1 : V_U64); break;  // curMin > 0, exceptions
     case 5: hll_feed(st.sk, st.inputs, r, r.chance(0.3) ? r.below(8) : 8 + r.below(small ? 3000 : 200000), dom, V_U64); break;
     default: hll_feed(st.sk, st.inputs, r, r.below(20), dom); break;                                                     // start_full_size
   }
@@ -532,7 +540,7 @@ inline void register_group_a() {
   register_theta(); register_tuple(); register_aod();
   for (const char* f : {"theta_compact_empty_from_java_v1.sk", "theta_compact_empty_from_java_v2.sk",
                         "theta_compact_estimation_from_java_v1.sk", "theta_compact_estimation_from_java_v2.sk"})
-    shipped().push_back(Shipped{std::string("theta/test/") + f, f, "theta", [](const std::string& img, bool stream) { return readout_theta(read_theta(img, stream, DEFAULT_SEED)); }});
+    shipped().push_back(Shipped{std::string("theta/test/") + f, f, "theta", [](const std::string& img, bool stream) { return readout_theta(read_theta(img, stream, DEFAULT_SEED), img, DEFAULT_SEED); }});
 #endif
 #ifdef C10_A2
   register_hll(); register_cpc();
